@@ -277,18 +277,15 @@ theorem ctrl_step_cases (c : Cfg) (d : Option Wl) (s : Step) (o : StepOut)
                 cases he : c.rel.batches[s.batch.toNat]? with
                 | none => simp only [he] at h; cases h
                 | some e =>
-                  simp only [he] at h
-                  split at h
-                  · cases h
-                  · simp only [Out.val.injEq] at h
-                    have hw : writeOf c.rel s w r = ctrlUpgradeBatch w r e c.rel.noNeedUpdate := by
-                      simp [writeOf, hcall, entryOf, hb, he, hr0]
-                    rw [hw]
-                    rcases commit_cases w (ctrlUpgradeBatch w r e c.rel.noNeedUpdate) s.fault none
-                      with ⟨h1, h2⟩ | ⟨x, h1, h2, h3⟩ | ⟨x, h1, h2, h3⟩
-                    · left; rw [h2] at h; subst h; exact ⟨h1, rfl, rfl, rfl⟩
-                    · right; left; rw [h3] at h; subst h; exact ⟨x, h1, h2, rfl, rfl, rfl⟩
-                    · right; right; rw [h3] at h; subst h; exact ⟨x, h1, h2, rfl, rfl, rfl⟩
+                  simp only [he, Out.val.injEq] at h
+                  have hw : writeOf c.rel s w r = ctrlUpgradeBatch w r e c.rel.noNeedUpdate := by
+                    simp [writeOf, hcall, entryOf, hb, he, hr0]
+                  rw [hw]
+                  rcases commit_cases w (ctrlUpgradeBatch w r e c.rel.noNeedUpdate) s.fault none
+                    with ⟨h1, h2⟩ | ⟨x, h1, h2, h3⟩ | ⟨x, h1, h2, h3⟩
+                  · left; rw [h2] at h; subst h; exact ⟨h1, rfl, rfl, rfl⟩
+                  · right; left; rw [h3] at h; subst h; exact ⟨x, h1, h2, rfl, rfl, rfl⟩
+                  · right; right; rw [h3] at h; subst h; exact ⟨x, h1, h2, rfl, rfl, rfl⟩
           · -- finalize
             simp only [step, hcall, planeFinalize, build, hg, if_false, hr, hrf', Out.val.injEq] at h
             have hw : writeOf c.rel s w r = some (ctrlFinalize w s.bpNil) := by simp [writeOf, hcall]
@@ -734,8 +731,7 @@ theorem step_exposure (c : Cfg) (d : Wl) (r : Int) (s : Step) (o : StepOut)
 /-- when a step panics -/
 theorem step_panic_cases (c : Cfg) (d : Option Wl) (s : Step) (h : step c d s = .panic) :
     (∃ w, d = some w ∧ replicasOf w = none) ∨
-    (s.call = .upgradeBatch ∧ ∃ w r, d = some w ∧ replicasOf w = some r ∧ r ≠ 0 ∧
-       (entryOf c.rel s.batch = none ∨ (w.kind = .daemonSet ∧ hasRU w.us = false))) := by
+    (s.call = .upgradeBatch ∧ ∃ w r, d = some w ∧ replicasOf w = some r ∧ r ≠ 0 ∧ entryOf c.rel s.batch = none) := by
   by_cases hg : s.fault = .get
   · cases hc : s.call <;> simp [step, hc, planeInitialize, planeUpgradeBatch, planeFinalize, build, hg] at h
     cases d <;> simp at h
@@ -762,16 +758,11 @@ theorem step_panic_cases (c : Cfg) (d : Option Wl) (s : Step) (h : step c d s = 
             · refine ⟨hr0, ?_⟩
               simp only [hr0, if_false] at h
               by_cases hb : s.batch < 0
-              · left; simp [entryOf, hb]
+              · simp [entryOf, hb]
               · simp only [hb, if_false] at h
                 cases he : c.rel.batches[s.batch.toNat]? with
-                | none => left; simp [entryOf, hb, he]
-                | some e =>
-                  right
-                  simp only [he] at h
-                  split at h
-                  · assumption
-                  · cases h
+                | none => simp [entryOf, hb, he]
+                | some e => simp only [he] at h; cases h
           · simp only [step, hc, planeFinalize, build, hg, if_false, hr, hl] at h
             cases h
           · simp only [step, hc] at h
